@@ -172,7 +172,7 @@ def r4_emission(run, F):
            "a cycle is reported exactly when the container contains itself after taking the union with the containee's closure; "
            "an already reported cycle only poisons: %s" % [(c[0], c[1]) for c in conds if "contains" in c[0]])
     code = F.body("alpha::error::Error::code")
-    cm = [x for x in hirq.matches(code["hir"]) if len(x["arms"]) > 40][0]
+    cm = [x for x in hirq.matches(code["hir"]) if hirq.n_alts(x) > 40][0]
     rows = {hirq.pat_key(a["pat"]).split("::")[-1]: hirq.unwrap_trivial(a["body"]).get("v") for a in cm["arms"]}
     for v, c in (("DuplicateDeclarationFunction", 421), ("DuplicateDeclarationConstant", 423), ("DuplicateDeclarationParameter", 424),
                  ("DuplicateDeclarationStructure", 425), ("DuplicateDeclarationMember", 426), ("CyclicalConstant", 413), ("CyclicalStructure", 415),
@@ -202,7 +202,7 @@ def r6_containment(run, F):
     fc = F.body(AN + "found_container")
     vt = C.adts.get("alpha::value_type::ValueType")
     run.require(vt is not None, "ValueType not found")
-    ms = [m for m in hirq.matches(fc["hir"]) if len(m["arms"]) >= 20]
+    ms = [m for m in hirq.matches(fc["hir"]) if hirq.n_alts(m) >= 20]
     run.require(len(ms) == 1, "found_container: the match over ValueType was not found (%d candidates)" % len(ms))
 
     def is_trav(c):
@@ -222,7 +222,7 @@ def r6_containment(run, F):
     # behind a pointer or view: named lengths are dependencies, structures are not (recursive structures are written that way)
     if F.has_body(AN + "found_named_lengths"):
         fl = F.body(AN + "found_named_lengths")
-        ml = [m for m in hirq.matches(fl["hir"]) if len(m["arms"]) >= 8]
+        ml = [m for m in hirq.matches(fl["hir"]) if hirq.n_alts(m) >= 8]
         run.require(len(ml) == 1, "found_named_lengths: the match over ValueType was not found (%d candidates)" % len(ml))
         behind = {
             "ValueType::Struct.identifier": "a structure behind a pointer is not embedded; recursive structures are written through pointers",
@@ -263,7 +263,7 @@ def r6_containment(run, F):
     run.require(len(decl) == 1, "variable_references: impl Analyzable for Declaration not found")
     d = decl[0]
     dadt = C.adts["alpha::common::Declaration"]
-    dm = [m for m in hirq.matches(d["hir"]) if len(m["arms"]) >= 5]
+    dm = [m for m in hirq.matches(d["hir"]) if hirq.n_alts(m) >= 5]
     run.require(dm, "Declaration::analyze: match not found")
 
     def rep2(key, ok, where, detail, sample):
